@@ -1,6 +1,7 @@
 import CookModel.Lemmas.Collector
 import CookModel.Lemmas.CollectorFold
 import CookModel.Lemmas.ClosingStream
+import CookModel.Lemmas.CollectorOrder
 /-
   C06  The recipe model is referentially consistent.
 
@@ -204,5 +205,50 @@ example : ∀ ev ∈ ([.start .step,
   intro ev hmem
   simp only [List.mem_cons, List.mem_nil_iff, or_false] at hmem
   rcases hmem with rfl | rfl | rfl | rfl | rfl <;> simp [EvOK, Modifiers.contains]
+
+/-! ### document order of the item indices (Lemmas/CollectorOrder.lean) -/
+
+/-- the fold keeps the order invariant: in the items pushed so far (finished sections, current
+    section, open block, in this order) the indices of each kind are strictly increasing and below the
+    table length — a new component gets the index `table.len()` and is appended at the end, a dropped
+    block (components mode, a `Start` without `End`) only removes items -/
+theorem C06_order_invariant_step (env : Env) (input : Str) (ev : Ev α) (s : Col α) (hi : Inv env s) (ho : OrdInv s)
+    (hev : EvOK ev) : OrdInv (processEvent env input ev s).2 := processEvent_ord env input ev s hi ho hev
+
+/-- for ANY list of `EvOK` events: reading the returned recipe's sections, their steps and the items
+    of each step in order (`recipeItems`), the ingredient indices are strictly increasing and each is
+    below the number of ingredients; likewise the cookware, timer and inline quantity indices -/
+theorem C06_indices_in_document_order_of_events (env : Env) (input : Str) (evs : List (Ev α)) (c : Col α)
+    (hev : ∀ ev ∈ evs, EvOK ev) (h : (parseEventsLoop env input evs {}).output = some c) : OrdFinal c :=
+  parseEventsLoop_ord env input evs {} c (Inv.init env) OrdInv.init hev h
+
+/-- **Item indices follow the document order.**  In every recipe `parse` returns (valid or not, any
+    extensions): going through the sections, the steps of each section and the items of each step in
+    order, the indices of the ingredient items are STRICTLY INCREASING and below `ingredients.len()`;
+    the same holds of the cookware items, the timer items and the inline quantity items.  So no two
+    items address the same component, and an item that comes later in the text addresses a component
+    that was added later.  (The indices need not be consecutive: with the MODES extension a block in
+    `[mode]: components` adds components to the tables without pushing a step, so later items skip
+    those indices.) -/
+theorem C06_indices_in_document_order (env : Env) (input : Str) (c : Col α)
+    (h : (parseRecipe (α := α) env input).output = some c) :
+    (((recipeItems c).filterMap Item.ingrIdx).Pairwise (· < ·) ∧
+      ∀ i ∈ (recipeItems c).filterMap Item.ingrIdx, i < c.ingredients.size) ∧
+    (((recipeItems c).filterMap Item.cwIdx).Pairwise (· < ·) ∧
+      ∀ i ∈ (recipeItems c).filterMap Item.cwIdx, i < c.cookware.size) ∧
+    (((recipeItems c).filterMap Item.timerIdx).Pairwise (· < ·) ∧
+      ∀ i ∈ (recipeItems c).filterMap Item.timerIdx, i < c.timers.size) ∧
+    (((recipeItems c).filterMap Item.iqIdx).Pairwise (· < ·) ∧
+      ∀ i ∈ (recipeItems c).filterMap Item.iqIdx, i < c.inlineQ.size) := by
+  have := C06_indices_in_document_order_of_events env input _ c (pullEvents_evOK env.cs env.ext input) h
+  exact ⟨this.ingr, this.cw, this.tm, this.iq⟩
+
+/-! non-vacuity: `recipeItems` of a two-section recipe; a repeated or decreasing index is rejected -/
+example : recipeItems (α := Rat) { sections := [⟨none, [.step ⟨[.ingredient 0, .text ['a'], .cookware 0], 1⟩, .text ['x']]⟩,
+      ⟨some ['s'], [.step ⟨[.ingredient 2], 1⟩]⟩] } =
+    [.ingredient 0, .text ['a'], .cookware 0, .ingredient 2] := by rfl
+example : IncBelow 3 [0, 2] := by unfold IncBelow; decide
+example : ¬ IncBelow 3 [1, 1] := by unfold IncBelow; decide
+example : ¬ IncBelow 3 [2, 0] := by unfold IncBelow; decide
 
 end Cook
